@@ -112,6 +112,7 @@ Proof.
   destruct (ev E None (s_upper f)) eqn:H2; [intro H; inversion H; subst; eapply (proj1 Hev); eauto|].
   destruct (parse_formula (s_summand f)); try (intro H; inversion H; reflexivity).
   destruct (so_range O o o0); [|intro H; inversion H; reflexivity].
+  destruct (check_scope _ t); [intro H; inversion H; reflexivity|].
   destruct (eval_terms ev E (s_variable f) (s_summand f) l) eqn:H3; [|discriminate].
   intro H; inversion H; subst. eapply eval_terms_not_result; eauto.
 Qed.
@@ -124,30 +125,50 @@ Proof.
   destruct (ev E None (s_upper f)); [discriminate|].
   destruct (parse_formula (s_summand f)); try discriminate.
   destruct (so_range O o o0); [|discriminate].
+  destruct (check_scope _ t); [discriminate|].
   destruct (eval_terms ev E (s_variable f) (s_summand f) l); [discriminate|].
   intro H; inversion H; reflexivity.
 Qed.
 
-Lemma sum_evaluations_not_result : forall O scope author student Es g,
-  sum_evaluations ev O scope author student Es = inl g -> is_result g = false.
+Lemma sum_evaluations_not_result : forall O scope bl author student Es g,
+  sum_evaluations ev O scope bl author student Es = inl g -> is_result g = false.
 Proof.
-  intros O scope author student Es. induction Es as [|E r IH]; intros g; simpl; [discriminate|].
+  intros O scope bl author student Es. induction Es as [|E r IH]; intros g; simpl; [discriminate|].
   destruct (evaluate_sum ev O E author) as [ga|[av ua]]; [intro H; inversion H; reflexivity|].
+  destruct (mem (s_variable student) bl); [intro H; inversion H; reflexivity|].
   destruct (evaluate_sum ev O (restrict_env scope E) student) as [gs|[sv us]] eqn:H2.
   - intro H; inversion H; subst. eapply evaluate_sum_not_result; eauto.
-  - destruct (sum_evaluations ev O scope author student r) as [g'|[l u]] eqn:H3; [|discriminate].
+  - destruct (sum_evaluations ev O scope bl author student r) as [g'|[l u]] eqn:H3; [|discriminate].
     intro H; inversion H; subst. apply IH. reflexivity.
 Qed.
 
-Lemma sum_evaluations_used : forall O scope author student E r evals used,
-  sum_evaluations ev O scope author student (E :: r) = inr (evals, used) -> used = sum_used student.
+Lemma sum_evaluations_used : forall O scope bl author student E r evals used,
+  sum_evaluations ev O scope bl author student (E :: r) = inr (evals, used) -> used = sum_used student.
 Proof.
-  intros O scope author student E r evals used. simpl.
+  intros O scope bl author student E r evals used. simpl.
   destruct (evaluate_sum ev O E author) as [ga|[av ua]]; [discriminate|].
+  destruct (mem (s_variable student) bl); [discriminate|].
   destruct (evaluate_sum ev O (restrict_env scope E) student) as [gs|[sv us]] eqn:H2; [discriminate|].
-  destruct (sum_evaluations ev O scope author student r) as [g'|[l u]]; [discriminate|].
+  destruct (sum_evaluations ev O scope bl author student r) as [g'|[l u]]; [discriminate|].
   intro H; inversion H; subst. eapply evaluate_sum_used; eauto.
 Qed.
+
+(* the first sample's student evaluation failing means the whole check fails *)
+Lemma sum_evaluations_student_fails : forall O scope bl author student E r,
+  (mem (s_variable student) bl = true \/ exists g, evaluate_sum ev O (restrict_env scope E) student = inl g) ->
+  exists g, sum_evaluations ev O scope bl author student (E :: r) = inl g.
+Proof.
+  intros O scope bl author student E r H. simpl.
+  destruct (evaluate_sum ev O E author) as [ga|[av ua]]; [eauto|].
+  destruct (mem (s_variable student) bl); [eauto|].
+  destruct H as [H|[g H]]; [discriminate|]. rewrite H. eauto.
+Qed.
+
+Ltac open_sum_check H inp :=
+  unfold sum_check in H; cbv zeta in H; fold inp in H;
+  destruct (is_empty_str (s_lower inp) || is_empty_str (s_upper inp) || is_empty_str (s_summand inp)
+            || is_empty_str (s_variable inp)); [discriminate|];
+  destruct (mem (s_variable inp) (func_scope _) || mem (s_variable inp) (c_constants _)); [discriminate|].
 
 (* a credited summation satisfies every restriction -- on all four fields of the structured input *)
 Theorem sum_credit_implies : forall c P O en author student E Es compare e,
@@ -158,11 +179,8 @@ Theorem sum_credit_implies : forall c P O en author student E Es compare e,
   /\ (forall x fs, In x [s_lower inp; s_upper inp; s_summand inp; s_variable inp] -> In fs (c_forbidden c) ->
                    substr (strip_spaces fs) (strip_spaces x) = false).
 Proof.
-  intros c P O en author student E Es compare e H Hok inp. unfold sum_check in H. cbv zeta in H. fold inp in H.
-  destruct (is_empty_str (s_lower inp) || is_empty_str (s_upper inp) || is_empty_str (s_summand inp)
-            || is_empty_str (s_variable inp)); [discriminate|].
-  destruct (mem (s_variable inp) (func_scope c) || mem (s_variable inp) (c_constants c)); [discriminate|].
-  destruct (sum_evaluations ev O _ author inp (E :: Es)) as [g|[evals used]] eqn:Hs.
+  intros c P O en author student E Es compare e H Hok inp. open_sum_check H inp.
+  destruct (sum_evaluations ev O _ _ author inp (E :: Es)) as [g|[evals used]] eqn:Hs.
   - subst. apply sum_evaluations_not_result in Hs. discriminate.
   - apply sum_evaluations_used in Hs. subst used. apply finish_result in H. destruct H as [_ [H|H]]; [contradiction|].
     apply post_eval_pass in H. destruct H as [A [B C]]. repeat split; auto.
@@ -173,44 +191,40 @@ Proof.
   intros E x v n H. simpl. destruct (str_eqb n x) eqn:He; [apply str_eqb_eq in He; contradiction | reflexivity].
 Qed.
 
-(* names in the summand are rejected as soon as one term is evaluated *)
+(* a name in the student's scope is an allowed name (whatever expressions were scanned for numbered instances) *)
+Lemma summation_scope_sound : forall c used n,
+  In n (student_scope summation_blacklist c (sample_names c used []) []) -> allowed c [] n.
+Proof.
+  intros c used n. rewrite summation_scope_In, sample_names_In, variable_list_In. unfold allowed. simpl. tauto.
+Qed.
+
+(* the names of the summand are checked before any term is evaluated: no condition on the index range *)
 Lemma evaluate_sum_summand_undefined : forall O E f t n,
-  py_strip (s_summand f) <> [] -> parse_formula (py_strip (s_summand f)) = PTree t ->
+  parse_formula (s_summand f) = PTree t ->
   In n (vars_of t) -> n <> s_variable f -> venv E n = None ->
-  (forall lo hi idx, so_range O lo hi = Some idx -> idx <> []) ->
   exists g, evaluate_sum ev O E f = inl g.
 Proof.
-  intros O E f t n Hne Hp Hn Hx Hv Hr. unfold evaluate_sum.
+  intros O E f t n Hp Hn Hx Hv. unfold evaluate_sum.
   destruct (defined (venv E) (s_variable f)); [eauto|].
   destruct (ev E None (s_lower f)); [eauto|].
   destruct (ev E None (s_upper f)); [eauto|].
-  destruct (parse_formula (s_summand f)); eauto.
-  destruct (so_range O o o0) as [idx|] eqn:Hrange; [|eauto].
-  destruct idx as [|i r]; [exfalso; eapply Hr; eauto|]. simpl.
-  erewrite (proj2 Hev); eauto.
-  eapply check_scope_var; eauto. rewrite bind_var_other; auto.
+  rewrite Hp. destruct (so_range O o o0) as [idx|]; [|eauto].
+  rewrite (check_scope_var _ t n Hn); [eauto|]. rewrite bind_var_other; auto.
 Qed.
 
 Theorem sum_summand_undefined_never_graded : forall c P O en author student E Es compare t n,
   let inp := structure_input en author student in
-  py_strip (s_summand inp) <> [] -> parse_formula (py_strip (s_summand inp)) = PTree t ->
+  parse_formula (s_summand inp) = PTree t ->
   In n (vars_of t) -> n <> s_variable inp -> ~ allowed c [] n ->
-  (forall lo hi idx, so_range O lo hi = Some idx -> idx <> []) ->
   forall e, sum_check ev c P O en author student (E :: Es) compare <> GResult e.
 Proof.
-  intros c P O en author student E Es compare t n inp Hne Hp Hn Hx Ha Hr e H.
-  unfold sum_check in H. cbv zeta in H. fold inp in H.
-  destruct (is_empty_str (s_lower inp) || is_empty_str (s_upper inp) || is_empty_str (s_summand inp)
-            || is_empty_str (s_variable inp)); [discriminate|].
-  destruct (mem (s_variable inp) (func_scope c) || mem (s_variable inp) (c_constants c)); [discriminate|].
-  match type of H with context [sum_evaluations ev O ?sc author inp (E :: Es)] => set (scope := sc) in H end.
+  intros c P O en author student E Es compare t n inp Hp Hn Hx Ha e H. open_sum_check H inp.
+  match type of H with context [sum_evaluations ev O ?sc ?b author inp (E :: Es)] => set (scope := sc) in H; set (bl := b) in H end.
   assert (Hout : venv (restrict_env scope E) n = None).
-  { apply restrict_env_out. unfold scope. rewrite summation_scope_allowed; [exact Ha|].
-    apply in_flat_map. exists (s_summand inp). split; [simpl; tauto|].
-    apply (used_variables_tree _ _ Hne Hp). exact Hn. }
-  destruct (evaluate_sum_summand_undefined O (restrict_env scope E) inp t n Hne Hp Hn Hx Hout Hr) as [g Hg].
-  simpl in H. destruct (evaluate_sum ev O E author) as [ga|[av ua]]; [discriminate|].
-  rewrite Hg in H. pose proof (evaluate_sum_not_result _ _ _ _ Hg) as Hnr. destruct g; discriminate.
+  { apply restrict_env_out. intro Hin. apply Ha. eapply summation_scope_sound. exact Hin. }
+  destruct (sum_evaluations_student_fails O scope bl author inp E Es
+              (or_intror (evaluate_sum_summand_undefined O (restrict_env scope E) inp t n Hp Hn Hx Hout))) as [g Hg].
+  rewrite Hg in H. apply sum_evaluations_not_result in Hg. subst. discriminate.
 Qed.
 
 (* names in the limits are always rejected *)
@@ -221,26 +235,34 @@ Theorem sum_limit_undefined_never_graded : forall c P O en author student E Es c
   In n (vars_of t) -> ~ allowed c [] n ->
   forall e, sum_check ev c P O en author student (E :: Es) compare <> GResult e.
 Proof.
-  intros c P O en author student E Es compare t n inp Hl Hn Ha e H.
-  unfold sum_check in H. cbv zeta in H. fold inp in H.
-  destruct (is_empty_str (s_lower inp) || is_empty_str (s_upper inp) || is_empty_str (s_summand inp)
-            || is_empty_str (s_variable inp)); [discriminate|].
-  destruct (mem (s_variable inp) (func_scope c) || mem (s_variable inp) (c_constants c)); [discriminate|].
-  match type of H with context [sum_evaluations ev O ?sc author inp (E :: Es)] => set (scope := sc) in H end.
+  intros c P O en author student E Es compare t n inp Hl Hn Ha e H. open_sum_check H inp.
+  match type of H with context [sum_evaluations ev O ?sc ?b author inp (E :: Es)] => set (scope := sc) in H; set (bl := b) in H end.
   assert (Hout : venv (restrict_env scope E) n = None).
-  { apply restrict_env_out. unfold scope. rewrite summation_scope_allowed; [exact Ha|].
-    destruct Hl as [[Hne Hp]|[Hne Hp]].
-    - apply in_flat_map. exists (s_lower inp). split; [simpl; tauto|]. apply (used_variables_tree _ _ Hne Hp). exact Hn.
-    - apply in_flat_map. exists (s_upper inp). split; [simpl; tauto|]. apply (used_variables_tree _ _ Hne Hp). exact Hn. }
+  { apply restrict_env_out. intro Hin. apply Ha. eapply summation_scope_sound. exact Hin. }
   assert (Hg : exists g, evaluate_sum ev O (restrict_env scope E) inp = inl g).
   { unfold evaluate_sum. destruct (defined (venv (restrict_env scope E)) (s_variable inp)); [eauto|].
     destruct Hl as [[Hne Hp]|[Hne Hp]].
     - erewrite (proj2 Hev _ _ (s_lower inp)); eauto. eapply check_scope_var; eauto.
     - destruct (ev (restrict_env scope E) None (s_lower inp)); [eauto|].
       erewrite (proj2 Hev _ _ (s_upper inp)); eauto. eapply check_scope_var; eauto. }
-  destruct Hg as [g Hg].
-  simpl in H. destruct (evaluate_sum ev O E author) as [ga|[av ua]]; [discriminate|].
-  rewrite Hg in H. pose proof (evaluate_sum_not_result _ _ _ _ Hg) as Hnr. destruct g; discriminate.
+  destruct (sum_evaluations_student_fails O scope bl author inp E Es (or_intror Hg)) as [g Hg'].
+  rewrite Hg' in H. apply sum_evaluations_not_result in Hg'. subst. discriminate.
+Qed.
+
+(* an instructor variable that is sampled cannot serve as the student's summation variable *)
+Theorem sum_instructor_variable_not_a_dummy : forall c P O en author student E Es compare,
+  let inp := structure_input en author student in
+  In (s_variable inp) (c_instructor c) ->
+  In (s_variable inp) (c_variables c) \/ In (s_variable inp) (c_constants c) ->
+  forall e, sum_check ev c P O en author student (E :: Es) compare <> GResult e.
+Proof.
+  intros c P O en author student E Es compare inp Hi Hd e H. open_sum_check H inp.
+  match type of H with context [sum_evaluations ev O ?sc ?b author inp (E :: Es)] => set (scope := sc) in H; set (bl := b) in H end.
+  assert (Hm : mem (s_variable inp) bl = true).
+  { apply mem_In. unfold bl. apply summation_blacklist_In. split; [exact Hi|].
+    apply sample_names_In. rewrite variable_list_In. tauto. }
+  destruct (sum_evaluations_student_fails O scope bl author inp E Es (or_introl Hm)) as [g Hg].
+  rewrite Hg in H. apply sum_evaluations_not_result in Hg. subst. discriminate.
 Qed.
 
 End WithEvaluation.
